@@ -1,13 +1,119 @@
+mod chainsim;
+mod checks;
 mod node;
 mod rng;
+mod sim;
 mod world;
 
+use serde_json::Value;
 use std::time::Instant;
+
+fn usage() -> ! {
+	eprintln!(
+		"usage:\n  verif-sim check <PROPERTY> [--tier quick|thorough]\n  verif-sim replay <file>\n  verif-sim worker <PROPERTY> <tier> <case_seed> <case> <out>\n  verif-sim world <seed>"
+	);
+	std::process::exit(2);
+}
+
+fn tier_from(args: &[String]) -> String {
+	let mut tier = std::env::var("VERIF_TIER").unwrap_or_else(|_| "quick".to_string());
+	let mut i = 0;
+	while i < args.len() {
+		if args[i] == "--tier" && i + 1 < args.len() {
+			tier = args[i + 1].clone();
+		}
+		i += 1;
+	}
+	if tier != "thorough" {
+		tier = "quick".to_string();
+	}
+	tier
+}
 
 fn main() {
 	let args: Vec<String> = std::env::args().collect();
 	world::init_process_globals();
+	// a panic anywhere in a worker is reported through the result file by the caller;
+	// keep the default hook quiet about backtraces
 	match args.get(1).map(|s| s.as_str()) {
+		Some("check") => {
+			let prop = args.get(2).cloned().unwrap_or_else(|| usage());
+			let tier = tier_from(&args);
+			let spec = match checks::spec(&prop, &tier) {
+				Some(s) => s,
+				None => {
+					eprintln!("HARNESS-ERROR: property {} has no check", prop);
+					std::process::exit(2);
+				}
+			};
+			let code = sim::drive(&spec, &tier);
+			std::process::exit(code);
+		}
+		Some("worker") => {
+			if args.len() < 7 {
+				usage();
+			}
+			let prop = args[2].clone();
+			let tier = args[3].clone();
+			let seed: u64 = args[4].parse().unwrap_or(0);
+			let case: u64 = args[5].parse().unwrap_or(0);
+			let out = args[6].clone();
+			let r = std::panic::catch_unwind(|| checks::run_case(&prop, &tier, seed, case));
+			let r = match r {
+				Ok(r) => r,
+				Err(p) => {
+					let msg = if let Some(s) = p.downcast_ref::<String>() {
+						s.clone()
+					} else if let Some(s) = p.downcast_ref::<&str>() {
+						s.to_string()
+					} else {
+						"panic".to_string()
+					};
+					let mut r = sim::CaseResult::new(case, seed);
+					r.harness_error = Some(format!("worker panicked: {}", msg));
+					r
+				}
+			};
+			sim::write_case_result(&out, &r);
+			node::cleanup_scratch_root();
+		}
+		Some("replay") => {
+			let file = args.get(2).cloned().unwrap_or_else(|| usage());
+			let s = std::fs::read_to_string(&file).expect("read replay file");
+			let v: Value = serde_json::from_str(&s).expect("parse replay file");
+			let prop = v["property"].as_str().unwrap_or("?").to_string();
+			let want_key = v["key"].as_str().unwrap_or("").to_string();
+			let rp = &v["replay"];
+			let res = match rp["engine"].as_str() {
+				Some("chainsim") => checks::replay_chainsim(rp),
+				other => Err(format!("unknown engine {:?}", other)),
+			};
+			node::cleanup_scratch_root();
+			match res {
+				Ok(Some(viol)) => {
+					println!("  what: {}", viol.what);
+					if viol.key == want_key {
+						println!("VIOLATION property={} replay={}", prop, file);
+						std::process::exit(1);
+					} else {
+						println!(
+							"replay failed differently: got key {} expected {}",
+							viol.key, want_key
+						);
+						println!("VIOLATION property={} replay={}", prop, file);
+						std::process::exit(1);
+					}
+				}
+				Ok(None) => {
+					println!("replay of {} did not reproduce a violation", file);
+					std::process::exit(0);
+				}
+				Err(e) => {
+					eprintln!("HARNESS-ERROR: {}", e);
+					std::process::exit(2);
+				}
+			}
+		}
 		Some("world") => {
 			let seed: u64 = args.get(2).and_then(|s| s.parse().ok()).unwrap_or(1);
 			let t = Instant::now();
@@ -15,11 +121,8 @@ fn main() {
 			let cfg = world::WorldCfg::draw(&mut r, true);
 			println!("cfg {:?}", cfg);
 			let mut w = world::World::new(seed, cfg, "w");
-			match w.generate_tree() {
-				Ok(()) => {}
-				Err(e) => {
-					println!("ERR {}", e);
-				}
+			if let Err(e) = w.generate_tree() {
+				println!("ERR {}", e);
 			}
 			for b in &w.blocks {
 				println!(
@@ -46,9 +149,6 @@ fn main() {
 			w.cleanup();
 			node::cleanup_scratch_root();
 		}
-		_ => {
-			eprintln!("usage: verif-sim world <seed>");
-			std::process::exit(2);
-		}
+		_ => usage(),
 	}
 }
